@@ -412,6 +412,72 @@ func protectedReturn(r *core.Report, f *core.Func, rn *core.GNode, kobj types.Ob
 	} else if why != "" {
 		return false, why, nil
 	}
+	// the same re-check written with nested ifs:  if key != nil { if !got.Equals(*key) { return err } }  - no single edge
+	// dominates the return, but every way to it passes either the equality edge or the edge on which the key pointer is
+	// nil (accepted, like the `key != nil &&` form, only when the call chain passes a provably non-nil pointer)
+	{
+		eqEdges, nilEdges := map[*core.GNode]bool{}, map[*core.GNode]bool{}
+		var eqText string
+		for _, e := range g.Nodes {
+			if e.Kind != core.KEdge || e.Ast == nil {
+				continue
+			}
+			for _, fact := range e.Facts() {
+				if fact.Tag != nil || fact.Unless != nil {
+					continue
+				}
+				if x, isNil, isCmp := core.NilCompare(info, fact.Expr); isCmp && isNil == fact.Truth && keyAliases[core.ObjOf(info, x)] {
+					nilEdges[e] = true
+				}
+				if mentionsAny(info, fact.Expr, keyAliases, false) && mentionsAny(info, fact.Expr, taint, false) && isEqualityTest(info, fact.Expr) && assertsEqual(info, fact.Expr, fact.Truth) {
+					// the mismatch side must only return errors
+					var opp *core.GNode
+					for _, pr := range e.Preds {
+						for _, sx := range pr.Succs {
+							if sx != e && sx.Kind == core.KEdge {
+								opp = sx
+							}
+						}
+					}
+					okMis := opp != nil
+					saw := false
+					if opp != nil {
+						for n := range g.ReachFromIncl(opp, func(x *core.GNode) bool { return x == e }) {
+							if n.Kind != core.KStmt || !g.Dominates(opp, n) {
+								continue
+							}
+							if _, isRet := n.Ast.(*ast.ReturnStmt); !isRet {
+								continue
+							}
+							saw = true
+							nilErr, decided := isNilErrReturn(f, n)
+							if !decided || nilErr || (needNF && !returnsNotFound(info, n)) {
+								okMis = false
+							}
+						}
+					}
+					if okMis && saw {
+						eqEdges[e] = true
+						eqText = core.ExprStr(fact.Expr)
+					}
+				}
+			}
+		}
+		if len(eqEdges) > 0 {
+			isAt := func(x *core.GNode) bool { return x == rn }
+			viaNeither := g.PathAvoiding(g.Entry, isAt, func(x *core.GNode) bool { return eqEdges[x] || nilEdges[x] })
+			if viaNeither == nil {
+				viaNil := g.PathAvoiding(g.Entry, isAt, func(x *core.GNode) bool { return eqEdges[x] })
+				if viaNil == nil {
+					return true, "every way to the success return passes the key re-check [" + eqText + "]", nil
+				}
+				if keyNonNil {
+					return true, "every way to the success return passes the key re-check [" + eqText + "] or the branch on which the key pointer is nil (the chain passes the address of the key)", nil
+				}
+				return false, "the re-check is skipped when the key pointer is nil and the call chain does not pass a provably non-nil pointer", nil
+			}
+		}
+	}
 	// re-check delegated to a helper: `if err := check(fetched, key); err != nil { return err }` - the success return is
 	// dominated by the nil outcome of a call that receives the key and a lookup-derived value, and every non-error return of
 	// that helper is itself protected by the comparison
